@@ -263,6 +263,10 @@ class Interp(object):
                 result = None
             except _Return as r:
                 result = r.value
+            except AbsRaise as e:
+                if getattr(e, 'origin_stack', None) is None:
+                    e.origin_stack = tuple(f.fi for f in self.frames)
+                raise
         finally:
             self.frames.pop()
         if is_gen and result is None:
@@ -396,8 +400,18 @@ class Interp(object):
                 raise AbsRaise(ExcValue('ValueError', site=node), site=node, explicit=False)
             return list(v.items)
         if isinstance(v, AList):
-            self.may_raise(node, ['ValueError'], 'unpack of a sequence of unknown length', (v,))
-            return [self.models.derive(v.elem, 'unpack%d' % i) for i in range(n)]
+            if getattr(v, 'exact_len', None) != n:
+                self.may_raise(node, ['ValueError'], 'unpack of a sequence of unknown length', (v,))
+            out = []
+            for i in range(n):
+                e = v.elem
+                u = Unk('%s.unpack%d' % (getattr(e, 'name', 'x'), i), kinds=getattr(e, 'kinds', None),
+                        taint=taint_of(e), src=('unpack', v, i))
+                if isinstance(e, Unk) and 'ascii-only' in e.facts:
+                    u.facts.add('ascii-only')
+                out.append(u)
+            self.emit('unpack', node, {'source': v, 'items': out})
+            return out
         if isinstance(v, Unk):
             if 'fixed-len-%d' % n not in v.facts:
                 self.may_raise(node, ['ValueError', 'TypeError'], 'unpack of unknown value', (v,))
@@ -913,6 +927,8 @@ class Interp(object):
             c = self.choose(2, 'truth')
             res = (c == 0)
             self.refine_truth(v, res, node)
+            if v.src and v.src[0] == 'regex':
+                self.models.refine_regex(self, v, res)
             self.emit('guard', node, {'value': v, 'result': res})
             return res
         raise AnalysisError('truth of %r' % (v,))
